@@ -1,13 +1,72 @@
-/- C01 — property theorems (placeholder while the pipeline is being tied; replaced below). -/
+/-
+  C01 — Data is delivered exactly to the faces with a matching pending Interest.
+  Property theorems over the shared model `Fw` (C01/Fw.lean).  Unless a hypothesis `WF s` is stated
+  the theorems hold for EVERY state `s`; `WF` (tokens unique, one in-record per face and entry) is an
+  invariant of every state reachable from an empty PIT by any history (`wf_run`).
+  Helper lemmas: C01/FwLemmas.lean, C01/FwLemmas2.lean.
+-/
 import NdnVerif.C01.Model
+import NdnVerif.C01.FwLemmas
+import NdnVerif.C01.FwLemmas2
 namespace Ndn.Fw.C01
-open Ndn Ndn.Fw
+open Ndn Ndn.Fw Ndn.Fw.Spec
 
-theorem hop0_dropped (s : St) (f : FaceId) (i : Interest) (tie : List FaceId) (pick : Nat)
-    (h : i.hop = some 0) : onInterest s f i tie pick = (s, []) := by
-  unfold onInterest
-  cases faceOf s.faces f with
-  | none => rfl
-  | some inF => simp [h, hopStep]
+/-- Data arriving on a face is emitted only on faces that at that moment hold an unsatisfied pending
+    Interest it satisfies (token echo in this forwarder's 6-byte format, or — with no such token — name
+    equal / extension with CanBePrefix), never elsewhere; each copy is the arriving Data itself and
+    carries the PIT token that face supplied; scope rules permitting. -/
+theorem data_sends_subset (s : St) (f : FaceId) (d : Data) (snd : Send) (h : snd ∈ (step s (.data f d)).2) :
+    ∃ g tok, snd = .data g d.name d.content tok ∧
+      (∃ e ∈ s.pit, satisfies d e = true ∧ ∃ r ∈ e.inRecs, r.face = g ∧ r.tok = tok) ∧
+      Deliverable s.faces d.name g := by
+  simp only [step] at h
+  exact onData_sends s f d snd h
+
+example :
+    let e : Entry := ⟨[⟨8, [97]⟩], true, false, none, 0, [⟨2, 7, 1000, [9]⟩], [], false, some 1000⟩
+    let s : St := { faces := [⟨1, true, .p2p⟩, ⟨2, true, .p2p⟩], pit := [e], nextTok := 1 }
+    (step s (.data 1 { name := [⟨8, [97]⟩, ⟨8, [98]⟩], content := 5 })).2 = [.data 2 [⟨8, [97]⟩, ⟨8, [98]⟩] 5 [9]] := by decide
+
+/-- The pending Interests a Data satisfies are consumed: afterwards no entry it satisfies holds an
+    in-record. -/
+theorem data_consumes (s : St) (f : FaceId) (d : Data) (fc : Face)
+    (hf : faceOf s.faces f = some fc) (hacc : (!fc.isLocal && isLocalhost d.name) = false) :
+    ∀ e ∈ (step s (.data f d)).1.pit, satisfies d e = true → e.inRecs = [] := by
+  simp only [step]
+  exact onData_consumes s f d fc hf hacc
+
+/-- … so that a repeated copy of the Data is delivered to nobody. -/
+theorem data_repeat_silent (s : St) (f : FaceId) (d : Data) :
+    (step (step s (.data f d)).1 (.data f d)).2 = [] := by
+  simp only [step]
+  exact onData_repeat s f d
+
+example :
+    let e : Entry := ⟨[⟨8, [97]⟩], true, false, none, 0, [⟨2, 7, 1000, [9]⟩], [], false, some 1000⟩
+    let s : St := { faces := [⟨1, true, .p2p⟩, ⟨2, true, .p2p⟩], pit := [e], nextTok := 1 }
+    let d : Data := { name := [⟨8, [97]⟩, ⟨8, [98]⟩], content := 5 }
+    (step s (.data 1 d)).2 ≠ [] ∧ (step (step s (.data 1 d)).1 (.data 1 d)).2 = [] := by decide
+
+/-- Data served from the cache in answer to an Interest goes to that Interest's face alone: it is
+    the only send of the operation (no upstream Interest), it matches the Interest, comes from the
+    Content Store and carries the PIT token the requester supplied. -/
+theorem cs_hit_single (s : St) (f : FaceId) (i : Interest) (tie : List FaceId) (pick : Nat) (snd : Send)
+    (h : snd ∈ (step s (.interest f i tie pick)).2) (hd : snd.isData = true) :
+    (step s (.interest f i tie pick)).2 = [snd] ∧
+    ∃ ce ∈ s.cs, snd = .data f ce.name ce.content i.tok ∧ nameMatch ce.name i.name i.cbp = true := by
+  simp only [step] at h ⊢
+  rcases onInterest_out s f i tie pick with h0 | ⟨ce, h1, hm, hce, _⟩ | ⟨hop, tok, _, hfw⟩
+  · rw [h0] at h; simp at h
+  · rw [h1] at h ⊢
+    simp at h
+    subst h
+    exact ⟨rfl, ce, hce, rfl, hm⟩
+  · obtain ⟨g, rfl, _⟩ := hfw snd h
+    simp [Send.isData] at hd
+
+example :
+    let s : St := { faces := [⟨1, true, .p2p⟩, ⟨2, true, .p2p⟩], fib := [([], [(2, 1)])],
+                    cs := [⟨[⟨8, [97]⟩], 5, 0⟩] }
+    (step s (.interest 1 { name := [⟨8, [97]⟩], nonce := some 3, tok := [4] } [] 0)).2 = [.data 1 [⟨8, [97]⟩] 5 [4]] := by decide
 
 end Ndn.Fw.C01
